@@ -92,8 +92,18 @@ def gen_program(rng, tier):
                     pick_size(rng), rng.random() < 0.5))
     end = rng.choice(["stop-A", "stop-B", "none", "none", "stop-A"])
     start = dict(A=rng.choice([0.0, 0.0, 0.2]), B=rng.choice([0.0, 0.0, 0.1, 1.2]))
+    # association ends early: stop() during set-up / right after, or a peer that never starts (T1 exhaustion)
+    r = rng.random()
+    early = None
+    if r < 0.08:
+        who = rng.choice("AB")
+        early = ("stop", who, round(rng.choice([0.0, 0.01, 0.05, 0.3, 1.0]) * rng.random() + start[who] + 1e-4, 4))
+    elif r < 0.12:
+        early = ("never-starts", rng.choice("AB"), None)
+    if early:
+        feats.add("early-end")
     ops.sort(key=lambda o: o[1])
-    return dict(heal=heal, faults=faults, ops=ops, end=end, start=start, feats=sorted(feats), nch=nch)
+    return dict(heal=heal, faults=faults, ops=ops, end=end, start=start, feats=sorted(feats), nch=nch, early=early)
 
 
 def fault_spec(rng, faults):
@@ -108,6 +118,12 @@ def fault_spec(rng, faults):
     return FaultModel.random_spec(rng, heavy=True)
 
 
+def blocked_by_lost_reset(rig, ep):
+    req = getattr(ep.sctp, "_reconfig_request", None)
+    streams = getattr(req, "streams", None)
+    return bool(streams) and bool(set(streams) & rig.reconfig_lost_streams)
+
+
 def run_case(index, rng, tier):
     prog = gen_program(rng, tier)
     relay = (index % 12 == 11)
@@ -120,6 +136,9 @@ def run_case(index, rng, tier):
 
         def create(k, p):
             uid = f"c{k}"
+            if any(e.sctp.state == "closed" for e in ((rig.A, rig.B) if p["negotiated"] is not None else (eps[p["creator"]],))):
+                rig.counters["create_skipped_transport_closed"] += 1  # outside the property: association already over
+                return
             try:
                 if p["negotiated"] is not None:
                     for ep in (rig.A, rig.B):
@@ -160,13 +179,18 @@ def run_case(index, rng, tier):
                 fn(*op[2:])
             else:
                 rig.at(t, fn, *op[2:])
+        early = prog.get("early")
         for name, t in prog["start"].items():
+            if early and early[0] == "never-starts" and early[1] == name:
+                continue
             rig.at(t, rig.start, eps[name])
+        if early and early[0] == "stop":
+            rig.at(early[2], lambda: rig.loop.create_task(eps[early[1]].sctp.stop()))
         rig.run_until(prog["heal"] + 4.0)
         outcome = rig.drain(extra=600.0)
         alive = rig.association_alive()
         stuck_closing = []
-        if outcome == "idle" and alive:
+        if outcome == "idle" and alive and not early:
             rig.counters["close_completed_checks"] += 1
             # every channel on which close() was called: both ends closed
             for uid, chan in rig.chans.items():
@@ -187,13 +211,26 @@ def run_case(index, rng, tier):
                     if not chan.negotiated and cobj is not None and cobj.readyState == "connecting":
                         rig.violation("lifecycle", "never-opened", f"{uid} still connecting at quiescence on a connected association",
                                       diagnostics=rig.diagnostics())
-            if stuck_closing:
-                key = "close-not-completed"
-                if rig.reconfig_dropped:
-                    key = "reconfig-not-retransmitted"
-                rig.violation("lifecycle", key, f"close() called but at quiescence: {stuck_closing[:3]} "
-                              f"(RE-CONFIG datagrams dropped by the link: {rig.reconfig_dropped})",
-                              diagnostics=rig.diagnostics())
+            by_mech = collections.defaultdict(list)
+            for uid, states in stuck_closing:
+                chan = rig.chans[uid]
+                ctx = getattr(chan, "close_ctx", [])
+                ids = {o.id for o in chan.obj.values() if o.id is not None}
+                if len(states) == 2 and ctx and all(c["assoc"] != "ESTABLISHED" for c in ctx):
+                    # D29: the channel has a counterpart on the peer (negotiated, or announced to us by DCEP) and
+                    # every close() on it happened while the closer's association was not established
+                    mech = "closed-before-established"
+                elif ids & rig.reconfig_lost_streams or any(
+                        st_ == "closing" and blocked_by_lost_reset(rig, eps[n]) for n, st_ in states.items()):
+                    # D16: the request (or its response) was dropped and is never retransmitted; while it is
+                    # outstanding every later reset of that endpoint queues behind it
+                    mech = "reconfig-not-retransmitted"
+                else:
+                    mech = "close-not-completed"
+                by_mech[mech].append((uid, states, ctx[:2]))
+            for mech, lst in by_mech.items():
+                rig.violation("lifecycle", mech, f"close() called but at quiescence: {lst[:3]}",
+                              diagnostics=rig.diagnostics() if mech == "close-not-completed" else None)
             # live ids distinct + parity
             for ep in (rig.A, rig.B):
                 ids = collections.Counter()
@@ -250,8 +287,26 @@ def run_case(index, rng, tier):
                                               f"channel re-created on freed id {chan.neg_id} does not carry messages "
                                               f"({[(f.fid, len(f.sent), len(f.delivered)) for f in und]})",
                                               diagnostics=rig.diagnostics())
+        if early and outcome == "idle":
+            # association ended (or never came up): every channel object handed out on a closed endpoint is closed
+            rig.counters["early_end_checks"] += 1
+            for ep in (rig.A, rig.B):
+                started = not (early[0] == "never-starts" and early[1] == ep.name)
+                if early[0] == "never-starts" and started and ep is rig.A and ep.sctp.state != "closed":
+                    # the client gives up after its INIT retransmissions; a server just keeps listening
+                    rig.violation("lifecycle", "never-established-not-closed",
+                                  f"peer never started, loop quiescent, but {ep.name}.state={ep.sctp.state}")
+                if early[0] == "stop" and early[1] == ep.name and ep.sctp.state != "closed":
+                    rig.violation("lifecycle", "stop-not-closed", f"after early stop() {ep.name}.state={ep.sctp.state}")
+                if ep.sctp.state == "closed":
+                    for mon in ep.mons.values():
+                        if mon.obj.readyState != "closed":
+                            uid = mon.chan.uid if mon.chan else "?"
+                            key = "channel-survives-association" + ("-no-id" if mon.obj.id is None else "")
+                            rig.violation("lifecycle", key, f"association closed on {ep.name} (early end {early}) but "
+                                          f"channel {uid} (id {mon.obj.id}) is {mon.obj.readyState}")
         # association end
-        if prog["end"].startswith("stop") and outcome == "idle":
+        if prog["end"].startswith("stop") and outcome == "idle" and not early:
             who = eps[prog["end"][-1]]
             t = rig.loop.create_task(who.sctp.stop())
             rig.drain(extra=300.0)
@@ -274,6 +329,8 @@ def run_case(index, rng, tier):
         fin = rig.finish()
         c = dict(rig.counters)
         c["drain_" + outcome] = 1
+        if outcome == "livelock" and not (rig.A.dead or rig.B.dead):
+            c["livelock_without_dead_endpoint"] = 1
         for f in prog["feats"]:
             c["feat_" + f] = 1
         for v in rig.violations:
